@@ -26,6 +26,8 @@ class World:
         self.events = []
         self.code = errno.EINPROGRESS     # answer of the next connect_ex (explicit phase)
         self.listen_k = None              # listening phase: latency
+        self.hs = "k"                     # answer of the next do_handshake (explicit phase, TLS)
+        self.listen_h = None              # listening phase: handshake latency (TLS)
         self.recv = "w"
 
 
@@ -68,6 +70,58 @@ class FakeConnSock:
         raise BlockingIOError(errno.EAGAIN, "would block")
 
 
+class TlsSock:
+    """what context.wrap_socket returns: the raw double plus a scripted do_handshake"""
+    def __init__(self, raw):
+        self.raw = raw
+        self.id = raw.id
+        self.shakes = 0
+
+    def __getattr__(self, k):
+        return getattr(self.raw, k)
+
+    def recv(self, bs):
+        import ssl
+        try:
+            return self.raw.recv(bs)
+        except BlockingIOError:               # a TLS socket reports "no data yet" as SSLWantReadError
+            raise ssl.SSLWantReadError(ssl.SSL_ERROR_WANT_READ, "want read")
+
+    def do_handshake(self):
+        import ssl
+        w = self.raw.w
+        n = self.shakes
+        self.shakes += 1
+        if w.listen_h is not None:
+            a = "k" if n + 1 >= w.listen_h else "w"
+        else:
+            a = w.hs
+        w.events.append("#%d=%s" % (self.id, a))
+        if a == "k":
+            return
+        if a == "w":
+            raise (ssl.SSLWantReadError if n % 2 == 0 else ssl.SSLWantWriteError)(
+                ssl.SSL_ERROR_WANT_READ if n % 2 == 0 else ssl.SSL_ERROR_WANT_WRITE, "want")
+        if n % 2 == 0:
+            raise ssl.SSLEOFError(ssl.SSL_ERROR_EOF, "eof in handshake")
+        raise ssl.SSLError(ssl.SSL_ERROR_SSL, "handshake failure")
+
+
+class CtxDouble:
+    """stands for ssl.SSLContext"""
+    def __init__(self):
+        import ssl
+        self.verify_mode = ssl.CERT_NONE
+        self.check_hostname = False
+
+    def wrap_socket(self, sock, server_side=False, do_handshake_on_connect=True, server_hostname=None):
+        return TlsSock(sock)
+
+    def load_default_certs(self, *a, **k): pass
+    def load_verify_locations(self, *a, **k): pass
+    def load_cert_chain(self, *a, **k): pass
+
+
 class Shim:
     def __init__(self, real, factory):
         self._real, self._factory = real, factory
@@ -100,12 +154,16 @@ class CHECK(core.Check):
                "time on the grid 1/1024 s; the listening server is the double's rule 'n-th connect_ex on a socket answers "
                "EINPROGRESS, EALREADY.., 0 from the k-th'; the kernel's TCP and real loopback latency are not modelled "
                "(loopback run is extra evidence only)",
-               "TLS clients (handshake phase) are outside the model"]
+               "every third random case and half of the exhaustive grid run through the TLS subclass ClientTls (context / TLS-socket "
+               "doubles with a scripted do_handshake: ok, want-read/write, failure), bare, under a TcpClientStack and as an https "
+               "Patron connector, including reuse after a completed handshake; the TLS record layer itself is not modelled"]
     PARTIAL = ["C27_reconnects_within_partial: liveness under the pacing hypothesis (the first k-1 service calls after a reopen "
                "come before the reconnect timer expires again); without it the client can livelock (known finding D28, "
                "C27_counterexample_livelock)",
                "fairness of the OS / network (a listening server answers within k calls) is a hypothesis, exercised only by the "
-               "double and one loopback run"]
+               "double and one loopback run",
+               "TLS: bounded liveness for arbitrary connect/handshake latency is checked by the oracle on the doubles, proved "
+               "only for a server that answers at once (C27_tls_reconnects_after_cutoff)"]
     TECHNIQUE = ("Lean 4 theorems (bounded liveness by induction on the latency k under explicit environment and pacing "
                  "hypotheses; safety invariants by induction over call sequences) + differential correspondence through a socket "
                  "double + direct oracle + loopback smoke run")
@@ -117,7 +175,9 @@ class CHECK(core.Check):
                   "C27_timer_reopen_restarts(_any) (that call leaves exactly that state, from any unconnected state), "
                   "C27_bare_reconnects_after_timer (end to end for a client whose attempts failed), C27_reports_live_addresses (invariant over all "
                   "histories), C27_stack_local_ha, C27_non_reconnectable_stays_closed (all histories of service calls). Full "
-                  "statement C27_full is false on the code: C27_counterexample_livelock (D28, known finding). "
+                  "TLS subclass: C27_tls_connected_implies_accepted (invariant over all TLS histories), "
+                  "C27_tls_reopen_clears_connected, C27_tls_reconnects_after_cutoff (immediate server; general latency only by "
+                  "correspondence + oracle). Full statement C27_full is false on the code: C27_counterexample_livelock (D28, known finding). "
                   "C27_counterexample_asis_bare_stays_cut_off documents the behaviour before fix D27.")
     LEVEL_NOTE = ("Trusted: Lean kernel; axioms propext, Classical.choice, Quot.sound; the hand transcription of the connection "
                   "management of Client, TcpClientStack.serviceConnect and Patron.serviceAll, validated by the correspondence runs "
@@ -182,15 +242,29 @@ class CHECK(core.Check):
             case["listen"] = {"k": k, "dts": self._dts(rng, T, k, rng.randrange(4, 31))}
         return case
 
+    def _tlsify(self, rng, case):
+        """the same history through the TLS subclass: every service call also carries the answer of do_handshake"""
+        c = dict(case, tls=True)
+        if c["kind"] == "stack" and c.get("build") == "own":
+            c["build"] = "given"                      # a stack cannot create a TLS handler itself
+        hs = lambda: rng.choice("kkkkwwe") if rng.random() < 0.5 else "k"
+        c["pre"] = [(t + ":" + hs()) if t[0] in "BSH" else t for t in case["pre"]]
+        if c.get("listen"):
+            h = rng.choice([1, 1, 2, 3])
+            k = c["listen"]["k"]
+            c["listen"] = {"k": k, "h": h, "dts": self._dts(rng, c["timeout"], k + h - 1, len(c["listen"]["dts"]))}
+        return c
+
     def generate(self, rng, n, tier):
-        for _ in range(n):
-            yield self._case(rng)
+        for i in range(n):
+            c = self._case(rng)
+            yield self._tlsify(rng, c) if i % 3 == 2 else c
 
     def search(self, rng, n, tier):
-        for _ in range(n):
+        for i in range(n):
             c = self._case(rng, explicit_ok=False)
             c["rec"] = 1
-            yield c
+            yield self._tlsify(rng, c) if i % 3 == 2 else c
 
     def exhaustive(self, tier):
         for kind, rec, k, d, T, lose in itertools.product(["bare", "stack", "patron"], [1, 0], [1, 2, 3],
@@ -199,6 +273,11 @@ class CHECK(core.Check):
             svc = {"bare": "B", "stack": "S", "patron": "H"}[kind]
             pre = {"closed": [svc + "0", "A500", "L"], "never": [], "refused": [svc + "111", "A10", svc + "111"],
                    "ownerclose": [svc + "0", "c"]}[lose]
+            if (k + d // 50 + T // 200) % 2:          # half of the grid through the TLS subclass (handshake latency 1..2)
+                yield {"kind": kind, "timeout": T, "rec": rec, "retry": None, "tls": True,
+                       "pre": [(t + ":k") if t[0] in "BSH" else t for t in pre], "loss": "closed",
+                       "listen": {"k": k, "h": 1 + (d // 50) % 2, "dts": [d] * 12},
+                       "build": ["given", "attr", "conn" if kind == "patron" else "given"][(k + d // 50) % 3]}
             yield {"kind": kind, "timeout": T, "rec": rec, "retry": None, "pre": pre, "loss": "closed",
                    "listen": {"k": k, "dts": [d] * 12},
                    "build": (["given", "own", "attr", "conn"] if kind == "patron" else ["given", "own", "attr"])[(k + d // 50) % (4 if kind == "patron" else 3)]}
@@ -218,7 +297,52 @@ class CHECK(core.Check):
             build = case.get("build", "given")
             T, rec = case["timeout"] / TICK, bool(case["rec"])
             stack = patron = None
-            if kind == "bare":
+            tls = bool(case.get("tls"))
+            if tls:
+                # the same histories through the TLS subclass: ClientTls with a context double
+                mk = lambda **kw: clienting.ClientTls(context=CtxDouble(), ha=SRV_HA, **kw)
+                if kind == "bare":
+                    if build == "own":
+                        client = mk(timeout=T, reconnectable=rec)
+                    elif build == "attr":
+                        client = mk(store=Stamper(stamp=0.0), timeout=T)
+                        client.reconnectable = rec
+                    else:
+                        client = mk(store=Stamper(stamp=0.0), timeout=T, reconnectable=rec)
+                    client.reopen()
+                    clock = client.store
+                elif kind == "stack":                    # a TLS handler can only be handed to the stack
+                    st = Stamper(stamp=0.0)
+                    if build == "attr":
+                        h = mk(store=st, timeout=T)
+                        h.reconnectable = rec
+                    else:
+                        h = mk(store=st, timeout=T, reconnectable=rec)
+                    stack = stacking.TcpClientStack(ha=SRV_HA, stamper=st, handler=h)
+                    client, clock = stack.handler, stack.stamper
+                elif kind == "patron":
+                    from ioflo.aio.http import clienting as hclienting
+                    if build == "own":                   # https patron makes its own ClientTls and store
+                        patron = hclienting.Patron(hostname=SRV_HA[0], port=SRV_HA[1], scheme="https",
+                                                   context=CtxDouble(), timeout=T, reconnectable=rec)
+                    elif build == "attr":
+                        patron = hclienting.Patron(hostname=SRV_HA[0], port=SRV_HA[1], scheme="https",
+                                                   context=CtxDouble(), store=Stamper(stamp=0.0), timeout=T)
+                        patron.connector.reconnectable = rec
+                    elif build == "conn":
+                        patron = hclienting.Patron(connector=mk(store=Stamper(stamp=0.0), timeout=T, reconnectable=rec))
+                    else:
+                        st = Stamper(stamp=0.0)
+                        patron = hclienting.Patron(connector=mk(store=st, timeout=T, reconnectable=rec), store=st)
+                    client = patron.connector
+                    patron.open()
+                    clock = patron.store
+                    if case.get("retry") is not None:
+                        patron.respondent.evented = True
+                        patron.respondent.retry = case["retry"] * 1000 // 1024
+                else:
+                    return ["bad-op"]
+            elif kind == "bare":
                 if build == "own":                       # no store given: the client makes its own
                     client = clienting.Client(ha=SRV_HA, timeout=T, reconnectable=rec)
                 elif build == "attr":                    # reconnectable switched on/off by attribute
@@ -271,22 +395,27 @@ class CHECK(core.Check):
                 cs = client.cs
                 ca = client.ca
                 lha = stack.local.ha if stack is not None else None
-                out.append("%s ; c=%d x=%d o=%d s=%s ca=%s l=%s" % (
-                    " ".join(world.events) or "-", bool(client.connected), bool(client.cutoff), bool(client.opened),
+                out.append("%s ; c=%d%s x=%d o=%d s=%s ca=%s l=%s" % (
+                    " ".join(world.events) or "-", bool(client.connected),
+                    (" a=%d" % bool(client.accepted)) if tls else "", bool(client.cutoff), bool(client.opened),
                     cs.id if cs is not None else "-",
                     ca[1] - 50000 if ca and ca[1] is not None else "-",
                     lha[1] - 50000 if lha and lha[1] is not None else "-"))
                 world.events = []
 
             def service(letter):
-                if letter == "B":
-                    client.serviceConnect()
-                elif letter == "S" and stack is not None:
-                    stack.serviceConnect()
-                elif letter == "H" and patron is not None:
-                    patron.serviceAll()
-                else:
-                    raise KeyError("bad-op")
+                import ssl
+                try:
+                    if letter == "B":
+                        client.serviceConnect()
+                    elif letter == "S" and stack is not None:
+                        stack.serviceConnect()
+                    elif letter == "H" and patron is not None:
+                        patron.serviceAll()
+                    else:
+                        raise KeyError("bad-op")
+                except ssl.SSLError:
+                    world.events.append("!")          # the handshake error escaped the service call
 
             for tok in case["pre"]:
                 k, arg = tok[0], tok[1:]
@@ -294,7 +423,9 @@ class CHECK(core.Check):
                 if k == "A":
                     clock.advanceStamp(int(arg) / TICK)
                 elif k in "BSH":
-                    world.code = int(arg)
+                    code, _, hs = arg.partition(":")
+                    world.code = int(code)
+                    world.hs = hs or "k"
                     service(k)
                 elif tok == "L":
                     world.recv = case.get("loss", "closed")
@@ -309,6 +440,7 @@ class CHECK(core.Check):
             lis = case.get("listen")
             if lis:
                 world.listen_k = int(lis["k"])
+                world.listen_h = int(lis.get("h", 1))
                 world.recv = "w"
                 letter = {"bare": "B", "stack": "S", "patron": "H"}[kind]
                 for dt in lis["dts"]:
@@ -323,11 +455,14 @@ class CHECK(core.Check):
 
     # ---- model
     def _req(self, case, head="run"):
+        if case.get("tls"):
+            head = {"run": "tls", "region D28": "regiontls D28"}[head]
         parts = [head, str(case["timeout"]), str(case["rec"]), "N" if case.get("retry") is None else str(case["retry"])]
         parts += case["pre"]
         lis = case.get("listen")
         if lis:
-            parts += ["/", case["kind"], str(lis["k"])] + [str(d) for d in lis["dts"]]
+            parts += (["/", case["kind"], str(lis["k"])] + ([str(lis.get("h", 1))] if case.get("tls") else []) +
+                      [str(d) for d in lis["dts"]])
         return " ".join(parts)
 
     def requests(self, case):
@@ -363,13 +498,27 @@ class CHECK(core.Check):
         # (a) a connected client reports the live socket's address; the stack's local.ha follows it
         toks = case["pre"] + (["R"] * (len(lis["dts"]) if lis else 0))
         svc = {"bare": "B", "stack": "S", "patron": "H"}[case["kind"]]
+        tls = bool(case.get("tls"))
+        prev_c = "0"
+        established = set()      # sockets whose connect_ex (and, for TLS, handshake) has succeeded
+        tcp_ok = set()
         for i, (ev, f) in enumerate(recs):
+            for e in ev:
+                if e.startswith("?") and e.split("=")[1] in ("0", str(errno.EISCONN)):
+                    tcp_ok.add(e[1:].split("=")[0])
+                    if not tls:
+                        established.add(e[1:].split("=")[0])
+                if e.startswith("#") and e.endswith("=k") and e[1:].split("=")[0] in tcp_ok:
+                    established.add(e[1:].split("=")[0])
             if f["c"] == "1" and f["ca"] != f["s"]:
                 return "call %d: connected on socket %s but reports the address of socket %s" % (i, f["s"], f["ca"])
-            connected_now = any(e.startswith("?") and e.split("=")[1] in ("0", str(errno.EISCONN)) for e in ev)
+            if f["c"] == "1" and f["s"] not in established:
+                return ("call %d: reports connected on socket %s whose connect%s never completed"
+                        % (i, f["s"], "/handshake" if tls else ""))
             letter = toks[i][0] if toks[i] != "R" else svc
-            if connected_now and letter == "S" and f["l"] != f["ca"]:
+            if prev_c == "0" and f["c"] == "1" and letter == "S" and f["l"] != f["ca"]:
                 return "call %d: the stack connected on socket %s but local.ha is %s" % (i, f["ca"], f["l"])
+            prev_c = f["c"]
         # (b) not reconnectable: after a cut off no socket is opened until the owner acts
         if not case["rec"]:
             cut = False
@@ -384,7 +533,7 @@ class CHECK(core.Check):
                     cut = False
         # (c) listening server: connected within k + 1 calls after the reconnect timeout has elapsed
         if lis and case["rec"] and case["timeout"] > 0:
-            k = int(lis["k"])
+            k = int(lis["k"]) + (int(lis.get("h", 1)) - 1 if case.get("tls") else 0)   # calls a fresh socket needs
             D = max(case["timeout"], abs(case["retry"]) if case.get("retry") is not None else 0)
             t, r1 = 0, None
             for j, dt in enumerate(lis["dts"]):
@@ -421,6 +570,8 @@ class CHECK(core.Check):
             if out and " ; " in out[-1]:
                 tags.append("ends-live" if ("c=1 x=0" in out[-1]) else "ends-down")
         tags.append("build-" + case.get("build", "given"))
+        if case.get("tls"):
+            tags.append("tls")
         if any(t == "L" for t in case["pre"]):
             tags.append("loss")
         if case.get("retry") is not None:
@@ -446,9 +597,11 @@ class CHECK(core.Check):
             cands.append(dict(case, pre=pre[:i] + pre[i + 1:]))
         lis = case.get("listen")
         if lis and len(lis["dts"]) > 1:
-            cands.append(dict(case, listen={"k": lis["k"], "dts": lis["dts"][:-1]}))
+            cands.append(dict(case, listen=dict(lis, dts=lis["dts"][:-1])))
             if lis["k"] > 1:
-                cands.append(dict(case, listen={"k": lis["k"] - 1, "dts": lis["dts"]}))
+                cands.append(dict(case, listen=dict(lis, k=lis["k"] - 1)))
+            if lis.get("h", 1) > 1:
+                cands.append(dict(case, listen=dict(lis, h=lis["h"] - 1)))
         cands = [c for c in cands if self.requests(c) != ["bad-request"]]
         if not cands:
             return
